@@ -178,6 +178,17 @@ func gsapLayers(tier string) []Layer {
 	}
 }
 
+func gsapResetLayers(tier string) []resetLayer {
+	var out []resetLayer
+	for _, l := range resetLayers(tier) {
+		if l.Name == "sa-multifill" || l.Name == "sa-wide" {
+			l.Kinds = []string{"GSAP"}
+			out = append(out, l)
+		}
+	}
+	return out
+}
+
 // notTinyBlocks drops geometries with BlockSize <= 3 for the long inputs (hundreds of Parse calls add nothing).
 func notTinyBlocks(pc PCfg) bool {
 	bc := pc.Config().BufConfig()
@@ -194,6 +205,8 @@ func init() {
 				depth = 7
 			}
 			shards := parserShards("C12", gsapLayers(tier), OracleC12)
+			// the same oracle on parsers that have a history and were Reset
+			shards = append(shards, resetShardsFor("C12", gsapResetLayers(tier), OracleC12)...)
 			shards = append(shards, engine.Shard{Name: "C12/bitset-bfs", Run: func(st *engine.Stats, col *engine.Collector) {
 				runBitsetBFS("C12", depth, st, col)
 			}})
@@ -201,11 +214,15 @@ func init() {
 		},
 		Replay: func(raw json.RawMessage, col *engine.Collector) error {
 			var probe struct {
-				Component string `json:"component"`
+				Component string  `json:"component"`
+				Prior     *string `json:"prior_hex"`
 			}
 			json.Unmarshal(raw, &probe)
 			if probe.Component == "bitset" {
 				return replayBS("C12", raw, col)
+			}
+			if probe.Prior != nil {
+				return replayResetFor("C12", OracleC12, raw, col)
 			}
 			return replayParser("C12", raw, OracleC12, col)
 		},
